@@ -167,7 +167,7 @@ func (g *Gen) listOp(write bool) {
 		k = hx([]byte("a|b"))
 	}
 	if write {
-		if !g.p.ReadAfterWrite && g.wrote[g.skey("list", b)] && g.r.Chance(9, 10) {
+		if !g.p.ReadAfterWrite && g.wrote[g.skey("list", b)] {
 			// pops, lrem, lset, ltrim validate against the committed list: only pushes are safe
 			if g.r.Bool() {
 				g.add("rpush %s %s %s", hb, k, g.vlist())
@@ -234,8 +234,13 @@ func (g *Gen) setOp(write bool) {
 	hb, hb2 := hx([]byte(b)), hx([]byte(b2))
 	k, k2 := g.hpick(g.p.Keys[:3]), g.hpick(g.p.Keys[:3])
 	if write {
-		if !g.p.ReadAfterWrite && g.wrote[g.skey("set", b)] && g.r.Chance(9, 10) {
-			g.add("sadd %s %s %s", hb, k, g.mlist())
+		if !g.p.ReadAfterWrite && (g.wrote[g.skey("set", b)] || g.wrote[g.skey("set", b2)]) {
+			if g.r.Bool() {
+				g.add("sadd %s %s %s", hb, k, g.mlist())
+			} else {
+				g.add("srem %s %s %s", hb, k, g.mlist())
+			}
+			g.wrote[g.skey("set", b)] = true
 			return
 		}
 		g.wrote[g.skey("set", b)] = true
@@ -312,7 +317,7 @@ func (g *Gen) zsetOp(write bool) {
 	b := g.pick(g.p.Buckets)
 	hb := hx([]byte(b))
 	if write {
-		if !g.p.ReadAfterWrite && g.wrote[g.skey("zset", b)] && g.r.Chance(9, 10) {
+		if !g.p.ReadAfterWrite && g.wrote[g.skey("zset", b)] {
 			g.add("zadd %s %s %s %s", hb, g.zkey(), g.score(), hx(g.val()))
 			return
 		}
